@@ -16,21 +16,24 @@ EXTENDS Naturals, FiniteSets, Sequences, TLC
 
 CONSTANTS FullCheck, MaxFaults, MaxSteps
 Machines == {"A", "B"}
-Keys == {"k0", "k1"}
+\* two targets: g, and c which depends on g and copies its output -- both outputs are the same blob "b".  g's key is fixed,
+\* c's key is "k0", or "k1" after an output-preserving edit of c.
+Order == <<"g", "c">>
 VARIABLES local,      \* per machine: set of items in its local cache
           remote,     \* items in the remote store
-          key,        \* the current definition's key
+          key,        \* the current key of c
           faults, steps,
           last,       \* outcome of the last build
           blessed     \* result keys written to the remote by a build that reported success
 vars == <<local, remote, key, faults, steps, last, blessed>>
+KeyOf(t, k) == IF t = "g" THEN "g0" ELSE k
 
 Init == /\ local = [m \in Machines |-> {}] /\ remote = {} /\ key = "k0" /\ faults = 0 /\ steps = 0
         /\ last = [kind |-> "none"] /\ blessed = {}
 
 Step == steps < MaxSteps /\ steps' = steps + 1
 
-\* an edit that changes the key but not the output
+\* an edit of c that changes its key but not its output
 Edit == /\ Step /\ key = "k0" /\ key' = "k1" /\ last' = [kind |-> "edit"]
         /\ UNCHANGED <<local, remote, faults, blessed>>
 \* an object disappears from the remote (eviction, partial upload by another tool)
@@ -38,53 +41,62 @@ DropRemote(x) == /\ Step /\ x \in remote /\ remote' = remote \ {x} /\ last' = [k
                  \* what the environment removed is no longer "as the build left it"
                  /\ blessed' = (IF x = "b" THEN {} ELSE blessed \ {x}) /\ UNCHANGED <<local, key, faults>>
 
-\* a build on machine m; useRemote: the remote backend is configured; f: the set of remote operations that fail during this build
 \* a failing Put either fails before it has read the body ("early": the tee then aborts the local leg too) or after ("late": the
 \* local leg has completed)
 Ops == {"get-result", "get-blob", "head-blob", "put-blob-early", "put-blob-late", "put-result-early", "put-result-late"}
+
+\* one target of a build on a machine; st = [loc, rem, ok, executed, blessed, failed]
+OneTarget(st, t, k, useRemote, f) ==
+  IF st.failed THEN st ELSE
+  LET kk == KeyOf(t, k)
+      haveResLocal == kk \in st.loc
+      haveResRemote == useRemote /\ kk \in st.rem /\ "get-result" \notin f
+      resFound == haveResLocal \/ haveResRemote
+      loc1 == IF ~haveResLocal /\ haveResRemote THEN st.loc \cup {kk} ELSE st.loc
+      blobLocal == "b" \in loc1
+      blobRemote == useRemote /\ "b" \in st.rem /\ "get-blob" \notin f
+      blobFound == blobLocal \/ blobRemote
+      loc2 == IF ~blobLocal /\ blobRemote THEN loc1 \cup {"b"} ELSE loc1
+      hit == resFound /\ blobFound
+  IN IF hit THEN [st EXCEPT !.loc = loc2]
+     ELSE
+       LET locE == IF resFound THEN loc1 ELSE st.loc
+           headOK == "head-blob" \notin f
+           inAllTiers == "b" \in locE /\ (~useRemote \/ (headOK /\ "b" \in st.rem))
+           skipBlob == IF FullCheck THEN inAllTiers ELSE ("b" \in locE \/ (useRemote /\ headOK /\ "b" \in st.rem))
+           putBlobEarly == ~skipBlob /\ useRemote /\ "put-blob-early" \in f
+           putBlobFails == ~skipBlob /\ useRemote /\ (f \cap {"put-blob-early", "put-blob-late"} # {})
+           putResEarly == useRemote /\ "put-result-early" \in f
+           putResFails == useRemote /\ (f \cap {"put-result-early", "put-result-late"} # {})
+           locB == IF skipBlob \/ putBlobEarly THEN locE ELSE locE \cup {"b"}
+           remB == IF skipBlob \/ ~useRemote \/ putBlobFails THEN st.rem ELSE st.rem \cup {"b"}
+           ok1 == ~putBlobFails
+           locR == IF ok1 /\ ~putResEarly THEN locB \cup {kk} ELSE locB
+           remR == IF ok1 /\ useRemote /\ ~putResFails THEN remB \cup {kk} ELSE remB
+           ok == ok1 /\ ~putResFails
+       IN [loc |-> locR, rem |-> remR, ok |-> st.ok /\ ok, executed |-> st.executed \cup {t},
+           blessed |-> IF ok /\ useRemote THEN st.blessed \cup {kk} ELSE st.blessed, failed |-> ~ok]
+
 Build(m, useRemote, f) ==
   /\ Step /\ f \subseteq Ops /\ faults + Cardinality(f) <= MaxFaults /\ (~useRemote => f = {})
   /\ faults' = faults + Cardinality(f)
-  /\ LET haveResLocal == key \in local[m]
-         haveResRemote == useRemote /\ key \in remote /\ "get-result" \notin f
-         resFound == haveResLocal \/ haveResRemote
-         loc1 == IF ~haveResLocal /\ haveResRemote THEN local[m] \cup {key} ELSE local[m]
-         blobLocal == "b" \in loc1
-         blobRemote == useRemote /\ "b" \in remote /\ "get-blob" \notin f
-         blobFound == blobLocal \/ blobRemote
-         loc2 == IF ~blobLocal /\ blobRemote THEN loc1 \cup {"b"} ELSE loc1
-         hit == resFound /\ blobFound
-     IN IF hit
-          THEN /\ local' = [local EXCEPT ![m] = loc2] /\ UNCHANGED <<remote, blessed>>
-               /\ last' = [kind |-> "build", m |-> m, remote |-> useRemote, f |-> f, executed |-> FALSE, ok |-> TRUE]
-          ELSE \* execute, then store the blob and the result
-            LET locE == IF resFound THEN loc1 ELSE local[m]     \* a found-but-unrestorable result was still copied into the local cache
-                headOK == "head-blob" \notin f
-                inAllTiers == "b" \in locE /\ (~useRemote \/ (headOK /\ "b" \in remote))
-                skipBlob == IF FullCheck THEN inAllTiers ELSE ("b" \in locE \/ (useRemote /\ headOK /\ "b" \in remote))
-                putBlobEarly == ~skipBlob /\ useRemote /\ "put-blob-early" \in f
-                putBlobFails == ~skipBlob /\ useRemote /\ (f \cap {"put-blob-early", "put-blob-late"} # {})
-                putResEarly == useRemote /\ "put-result-early" \in f
-                putResFails == useRemote /\ (f \cap {"put-result-early", "put-result-late"} # {})
-                locB == IF skipBlob \/ putBlobEarly THEN locE ELSE locE \cup {"b"}
-                remB == IF skipBlob \/ ~useRemote \/ putBlobFails THEN remote ELSE remote \cup {"b"}
-                ok1 == ~putBlobFails
-                locR == IF ok1 /\ ~putResEarly THEN locB \cup {key} ELSE locB
-                remR == IF ok1 /\ useRemote /\ ~putResFails THEN remB \cup {key} ELSE remB
-                ok == ok1 /\ ~putResFails
-            IN /\ local' = [local EXCEPT ![m] = locR] /\ remote' = remR
-               /\ blessed' = IF ok /\ useRemote THEN blessed \cup {key} ELSE blessed
-               /\ last' = [kind |-> "build", m |-> m, remote |-> useRemote, f |-> f, executed |-> TRUE, ok |-> ok]
+  /\ LET s0 == [loc |-> local[m], rem |-> remote, ok |-> TRUE, executed |-> {}, blessed |-> blessed, failed |-> FALSE]
+         s1 == OneTarget(s0, "g", key, useRemote, f)
+         s2 == OneTarget(s1, "c", key, useRemote, f)
+     IN /\ local' = [local EXCEPT ![m] = s2.loc] /\ remote' = s2.rem
+        \* results written to the remote count as "left by a successful build" only if the whole build reported success
+        /\ blessed' = IF s2.ok THEN s2.blessed ELSE blessed
+        /\ last' = [kind |-> "build", m |-> m, remote |-> useRemote, f |-> f, executed |-> s2.executed, ok |-> s2.ok]
   /\ UNCHANGED key
 
-Next == Edit \/ (\E x \in {"b", "k0", "k1"} : DropRemote(x))
+Next == Edit \/ (\E x \in {"b", "g0", "k0", "k1"} : DropRemote(x))
         \/ \E m \in Machines, u \in BOOLEAN, f \in SUBSET Ops : Build(m, u, f)
 Spec == Init /\ [][Next]_vars
 
 \* every result a successful build wrote to the remote references only blobs that are in the remote
 NoDanglingRemote == \A k \in blessed : k \in remote => "b" \in remote
 \* a machine with the remote configured and no faults never executes when the remote holds the result and its blob
-ReadThrough == (last.kind = "build" /\ last.remote /\ last.f = {} /\ last.executed) => TRUE
 \* a fault or a missing object is a miss or a reported failure, never a success without the objects stored
-SuccessMeansStored == (last.kind = "build" /\ last.ok /\ last.executed /\ last.remote) => (key \in remote /\ "b" \in remote)
+SuccessMeansStored == (last.kind = "build" /\ last.ok /\ last.remote) =>
+                         \A t \in last.executed : KeyOf(t, key) \in remote /\ "b" \in remote
 =============================================================================
